@@ -164,6 +164,7 @@ void scen_c03(mt_case * c) {
   mt_hash(c->prog.p, c->prog.pos);
   mt_lib_start(c, &e, 0);
   mv_set_point_observer(align_observer);
+  MT_DIRTY(G.m); MT_DIRTY(G.cv); MT_DIRTY(G.bar); MT_DIRTY(G.jc); MT_DIRTY(G.un);
   Z0(myth_mutex_init(&G.m, 0)); myth_cond_init(&G.cv, 0); Z0(myth_barrier_init(&G.bar, 0, G.T));
   for (int i = 0; i < G.nph; i++) myth_join_counter_init(&G.jc[i], 0, G.T);
   for (int i = 0; i < 16; i++) myth_uncond_init(&G.un[i]);
